@@ -95,6 +95,30 @@ def python_seeds(rng):
         {"name": "z", "path": ["g", "y", "z"], "type": pq.INT64, "levels": lv_z, "max_def": 3, "rows": [i64(9)] * lv_z.count(3)}],
         schema_elems=[("schema", None, None, 2, 0), ("a", pq.INT32, pq.REQUIRED, 0, 0), ("g", None, pq.OPTIONAL, 2, 0),
                       ("x", pq.INT32, pq.REQUIRED, 0, 0), ("y", None, pq.OPTIONAL, 1, 0), ("z", pq.INT64, pq.OPTIONAL, 0, 0)])))
+    # logical types (SchemaElement.logicalType: TIME, TIMESTAMP, INTEGER, BSON, UUID, FLOAT16, DECIMAL, STRING)
+    unit = lambda k: [[k, T_STRUCT, []]]
+    lts = [("t", pq.INT32, [[7, T_STRUCT, [[1, T_TRUE, True], [2, T_STRUCT, unit(1)]]]]),
+           ("ts", pq.INT64, [[8, T_STRUCT, [[1, T_TRUE, False], [2, T_STRUCT, unit(3)]]]]),
+           ("u8", pq.INT32, [[10, T_STRUCT, [[1, T_BYTE, 8], [2, T_TRUE, False]]]]),
+           ("bs", pq.BYTE_ARRAY, [[13, T_STRUCT, []]]),
+           ("id", pq.FLBA, [[14, T_STRUCT, []]]),
+           ("h", pq.FLBA, [[15, T_STRUCT, []]]),
+           ("dec", pq.INT32, [[5, T_STRUCT, [[1, T_I32, 2], [2, T_I32, 9]]]]),
+           ("str", pq.BYTE_ARRAY, [[1, T_STRUCT, []]])]
+    cols, elems = [], [("schema", None, None, len(lts), 0)]
+    for nm, ty, lt in lts:
+        tl = 16 if nm == "id" else (2 if nm == "h" else 0)
+        rows = [i32(5)] * 4 if ty == pq.INT32 else [i64(5)] * 4 if ty == pq.INT64 else [b"x" * (tl or 3)] * 4
+        cols.append({"name": nm, "type": ty, "tlen": tl, "rows": rows})
+        elems.append((nm, ty, pq.REQUIRED, 0, tl, lt))
+    seeds.append(("py-logical", pq.build_file(cols, schema_elems=elems)))
+    # a REPEATED leaf (repetition levels) and an INT96 dictionary
+    rl = [0, 1, 1, 0, 0, 1]
+    dl = [1, 1, 1, 0, 1, 1]
+    seeds.append(("py-repeated", pq.build_file([
+        {"name": "r", "type": pq.INT32, "rep_levels": rl, "max_rep": 1, "levels": dl, "max_def": 1, "rows": [i32(3)] * dl.count(1)},
+        {"name": "t", "type": pq.INT96, "rows": [bytes(range(12)), bytes(range(1, 13))] * 3, "dict": True}],
+        schema_elems=[("schema", None, None, 2, 0), ("r", pq.INT32, pq.REPEATED, 0, 0), ("t", pq.INT96, pq.REQUIRED, 0, 0)])))
     return seeds
 
 
@@ -514,6 +538,53 @@ def schema_sweep(name, data):
     return out
 
 
+def footer_prefix_sweep(name, data):
+    """The footer cut at every byte (the framing - length word and magics - stays consistent): every way the
+    Thrift parser can run out of input inside the metadata."""
+    L = pq.layout(data)
+    fb = data[L.footer_off:L.n - 8]
+    out = []
+    for k in range(len(fb)):
+        img = data[:L.footer_off] + fb[:k] + struct.pack("<I", k) + pq.MAGIC
+        out.append((img, f"footer-prefix:{k}/{len(fb)}"))
+    # an unknown DOUBLE / BYTE / UUID-typed field cut short at the end of the footer (thrift_skip past the buffer)
+    for ty, have in ((7, 3), (3, 0), (13, 9)):
+        tail = bytes([ty]) + pq.varint(pq.zz(77)) + bytes(have)
+        cut = fb[:-1] + tail
+        out.append((data[:L.footer_off] + cut + struct.pack("<I", len(cut)) + pq.MAGIC, f"footer-skip-truncated:type={ty}"))
+    return out
+
+
+def level_garbage_cases(name, data):
+    """The level blocks of pages that have levels, replaced by byte patterns the RLE / bit-packed hybrid decoder
+    must reject or run out of (CRC recomputed)."""
+    import copy
+    L = pq.layout(data)
+    out = []
+    for page in all_pages(data, L):
+        gi, ci, md, off, hdr, hsize, csize = page
+        if pq.get(hdr, 1) != 0 or pq.get(md, 4) != 0 or csize < 6:
+            continue
+        payload = data[off + hsize:off + hsize + csize]
+        blen = struct.unpack("<I", payload[:4])[0]
+        if blen == 0 or 4 + blen > csize:
+            continue
+        for tag, pat in (("ff", b"\xff"), ("00", b"\x00"), ("03", b"\x03"), ("02", b"\x02"), ("fe", b"\xfe\xff\xff\xff\x0f")):
+            blk = (pat * blen)[:blen]
+            p2 = payload[:4] + blk + payload[4 + blen:]
+            h2 = copy.deepcopy(hdr)
+            for f in h2:
+                if f[0] == 4:
+                    c32 = zlib.crc32(p2)
+                    f[2] = c32 if c32 < 2 ** 31 else c32 - 2 ** 32
+            hb = pq.enc_struct(h2)
+            body = data[:off] + hb + p2 + data[off + hsize + csize:L.footer_off]
+            tree = copy.deepcopy(L.footer)
+            shift_offsets(tree, off, len(hb) - hsize)
+            out.append((reassemble(data, L, tree, body=body), f"levels-garbage[{gi},{ci}]:{tag}"))
+    return out
+
+
 def page_end_mutant(data, L, page, d, fix_usize=True):
     """compressed_page_size such that the page ends d bytes behind the end of the FILE (d <= 0: inside)."""
     import copy
@@ -644,6 +715,125 @@ def footer_length_images():
         for ln in sorted(set([max(0, size - 16 + d) for d in range(0, 25)] + [0xFFFFFFFF - d for d in range(0, 16)] + [0x7FFFFFFF, 0x80000000])):
             img = pq.MAGIC + bytes(size - 12) + struct.pack("<I", ln & 0xFFFFFFFF) + pq.MAGIC
             out.append((img, f"footer-length-image:size={size},declared={ln}"))
+    return out
+
+
+
+def every_int_field_sweep(name, data):
+    """Every integer field of the footer and of every page header at value-1 / value+1 (both sides of the
+    comparisons the reader makes), one field per file."""
+    import copy
+    L = pq.layout(data)
+    out = []
+    for path, k, fid, t in paths_of(L.footer, "FileMetaData"):
+        if t in (T_I16, T_I32, T_I64, T_BYTE):
+            for d in (-1, 1):
+                tree = copy.deepcopy(L.footer)
+                f = node_at(tree, path)
+                f[2] = f[2] + d
+                out.append((reassemble(data, L, tree), f"int-sweep:{k}.{FNAME.get((k, fid), fid)}{d:+d}"))
+    for page in all_pages(data, L):
+        gi, ci, md, off, hdr, hsize, csize = page
+        for path, k, fid, t in paths_of(hdr, "PageHeader"):
+            if t in (T_I16, T_I32, T_I64, T_BYTE):
+                for d in (-1, 1):
+                    h2 = copy.deepcopy(hdr)
+                    f = node_at(h2, path)
+                    f[2] = f[2] + d
+                    hb = pq.enc_struct(h2)
+                    body = data[:off] + hb + data[off + hsize:L.footer_off]
+                    tree = copy.deepcopy(L.footer)
+                    shift_offsets(tree, off, len(hb) - hsize)
+                    out.append((reassemble(data, L, tree, body=body), f"int-sweep:page[{gi},{ci}].{k}.{FNAME.get((k, fid), fid)}{d:+d}"))
+    return out
+
+
+def special_cases(byname):
+    """Inputs aimed at rejection branches no random mutant reaches (coverage audit)."""
+    import copy
+    out = []
+    # (1) chunk type and schema type agree on a value outside the enum / on every type code: the default branches of the
+    #     value-size switches
+    for nm in ("py-plain", "py-dict-crc"):
+        data = byname[nm]
+        L = pq.layout(data)
+        for ty in (8, 9, 16, 255, -1, 2 ** 31 - 1):
+            tree = copy.deepcopy(L.footer)
+            for e in pq.items(pq.get(tree, 2))[1:]:
+                for f in e:
+                    if f[0] == 1:
+                        f[2] = ty
+            for rg in pq.items(pq.get(tree, 4)):
+                for cc in pq.items(pq.get(rg, 1)):
+                    for f in (pq.get(cc, 3) or []):
+                        if f[0] == 1:
+                            f[2] = ty
+            out.append((nm, reassemble(data, L, tree), f"special:all-types={ty}"))
+        # (2) schema with the root only / without the root's children
+        tree = copy.deepcopy(L.footer)
+        for f in tree:
+            if f[0] == 2:
+                f[2] = ("list", T_STRUCT, f[2][2][:1], None)
+        out.append((nm, reassemble(data, L, tree), "special:schema-root-only"))
+        tree = copy.deepcopy(L.footer)
+        for f in tree:
+            if f[0] == 2:
+                root = copy.deepcopy(f[2][2][0])
+                for g in root:
+                    if g[0] == 5:
+                        g[2] = 0
+                f[2] = ("list", T_STRUCT, [root], None)
+        out.append((nm, reassemble(data, L, tree), "special:schema-single-leaf-root"))
+    # (3) a BOOLEAN column with a dictionary page (no dictionary support for that type: NOT_IMPLEMENTED)
+    out.append(("py-bool-dict", pq.build_file([{"name": "b", "type": pq.BOOLEAN, "rows": [True, False, True, True], "dict": True}]),
+                "special:boolean-dictionary"))
+    # (4) Thrift primitives: a varint that never ends / overflows 64 bits, a list size that is negative as int32
+    data = byname["py-plain"]
+    L = pq.layout(data)
+    for label, raw in (("varint-overflow", b"\xff" * 11 + b"\x01"), ("varint-unterminated", b"\xff" * 9)):
+        tree = copy.deepcopy(L.footer)
+        for f in tree:
+            if f[0] == 3:
+                f[2] = Raw(raw)
+        out.append(("py-plain", reassemble(data, L, tree), f"special:{label}"))
+    for decl in (2 ** 31, 2 ** 32 - 1, 2 ** 31 + 5):
+        tree = copy.deepcopy(L.footer)
+        for f in tree:
+            if f[0] == 4:
+                tag, et, its, _ = f[2]
+                f[2] = (tag, et, its, decl)
+        out.append(("py-plain", reassemble(data, L, tree), f"special:list-size={decl}"))
+    # (4b) a long-form field header whose field id is a varint that overflows / never ends: thrift_read_field_begin
+    #      returns "a field" with the decoder already in error (footer and page header)
+    for label, raw in (("field-id-overflow", bytes([0x05]) + b"\xff" * 11), ("field-id-unterminated", bytes([0x06]) + b"\x80" * 3)):
+        tree = copy.deepcopy(L.footer)
+        tree.append(Raw(raw))
+        out.append(("py-plain", reassemble(data, L, tree), f"special:footer-{label}"))
+        pages = all_pages(data, L)
+        gi, ci, md, off, hdr, hsize, csize = pages[0]
+        h2 = copy.deepcopy(hdr)
+        h2.append(Raw(raw))
+        hb = pq.enc_struct(h2)
+        body = data[:off] + hb + data[off + hsize:L.footer_off]
+        tree = copy.deepcopy(L.footer)
+        shift_offsets(tree, off, len(hb) - hsize)
+        out.append(("py-plain", reassemble(data, L, tree, body=body), f"special:page-header-{label}"))
+    # (5) BYTE_ARRAY dictionary whose declared entry count passes the page-size test but exceeds the entries present
+    data = byname["py-dict-crc"]
+    L = pq.layout(data)
+    for page in all_pages(data, L):
+        gi, ci, md, off, hdr, hsize, csize = page
+        if pq.get(hdr, 1) == 2 and pq.get(md, 1) == pq.BYTE_ARRAY:
+            for extra in (1, 2):
+                h2 = copy.deepcopy(hdr)
+                for f in pq.get(h2, 7):
+                    if f[0] == 1:
+                        f[2] += extra
+                hb = pq.enc_struct(h2)
+                body = data[:off] + hb + data[off + hsize:L.footer_off]
+                tree = copy.deepcopy(L.footer)
+                shift_offsets(tree, off, len(hb) - hsize)
+                out.append(("py-dict-crc", reassemble(data, L, tree, body=body), f"special:dictionary-entries+{extra}"))
     return out
 
 
@@ -835,7 +1025,7 @@ def run(tier):
         judge(rep, cases, out, stats)
         # 2. seeds must read cleanly
         seeds = carquet_seeds(tier, rng, drv, tmp) + python_seeds(rng)
-        cases = [(n, d, "unmutated", m, s) for (n, d) in seeds for m in range(3) for s in ("M/R7/B4,0", "R1000/B1000,2")]
+        cases = [(n, d, "unmutated", m, s) for (n, d) in seeds for m in range(3) for s in ("M/R7/B4,0", "R1000/B1000,2", "B7,5")]
         out = run_cases(rep, drv, cases, tmp, "seed")
         for c, o in zip(cases, out):
             if not o.startswith("OK"):
@@ -858,6 +1048,21 @@ def run(tier):
                     sweep += [(nm,) + x for x in nesting_sweep(nm, d, tier)]
             except Exception as e:
                 rep.tie_broken(f"sweep generator failed on seed {nm}: {e!r}", nm)
+        for nm in (["py-dict-crc", "py-repeated", "py-logical", cq_first] if tier == "quick" else [n for n, d in seeds]):
+            try:
+                sweep += [(nm,) + x for x in every_int_field_sweep(nm, byname[nm])]
+            except Exception as e:
+                rep.tie_broken(f"int sweep failed on seed {nm}: {e!r}", nm)
+        try:
+            sweep += [("py-dict-f",) + x for x in footer_prefix_sweep("py-dict-f", byname["py-dict-f"])]
+            for nm in ("py-repeated", "py-dict-crc", "py-plain", "py-nested"):
+                sweep += [(nm,) + x for x in level_garbage_cases(nm, byname[nm])]
+        except Exception as e:
+            rep.tie_broken(f"footer-prefix / level-garbage generator failed: {e!r}", "special")
+        try:
+            sweep += special_cases(byname)
+        except Exception as e:
+            rep.tie_broken(f"special-case generator failed: {e!r}", "special")
         sweep += [("image",) + x for x in footer_length_images()]
         # extreme truncations (the empty file included: the only input on which mmap() itself fails); every case is
         # opened both with and without an error record by the driver
